@@ -597,3 +597,27 @@ package pdf
 //@   assigns mapof(c.trans), c.w.all, mapof(c.w.xref), c.w.w.all, c.w.w.w.log
 //@   ensures copierOK(c) && copierStable(c)
 //@   ensures old(obj in c.trans) ==> err == nil && res == old(c.trans[obj]) && c.w.nextRef == old(c.w.nextRef)
+
+// ---- Reader.get (C04): null for absent, free and generation-mismatched references ----
+//@ func (*Reader).scannerFrom (r, pos, canObjStm) (s, err)
+//@   trusted
+//@   assigns nothing
+//@   fresh s
+//@   ensures err == nil ==> s != nil && RN(s) && s.enc == r.enc
+
+//@ func getFromObjStm (r, number, sRef, getInt, enc) (obj, err)
+//@   trusted
+//@   assigns nothing
+
+//@ func safeGetInteger (r, canObjStm) (f)
+//@   trusted
+//@   pure
+
+//@ func (Reference).String (x) (s)
+//@   trusted
+//@   pure
+
+//@ func (*Reader).get (r, ref, canObjStm, scalarOnly) (obj, err)
+//@   tags C04
+//@   assigns nothing
+//@   ensures !((ref % 4294967296) in r.xref) || r.xref[ref % 4294967296] == nil || r.xref[ref % 4294967296].Pos < 0 || r.xref[ref % 4294967296].Generation != (ref / 4294967296) % 65536 ==> obj == nil && err == nil
